@@ -182,6 +182,16 @@ func checkInput(in []byte, class string) error {
 	} else {
 		hx.Class("ref_accepts/" + class)
 	}
+	// the verdict must not depend on the kind of reader: same input through a reader that offers nothing but Read
+	if len(in)%3 == 0 {
+		dbp, perr := signature.ReadSignatureDatabase(&hx.PlainReader{R: bytes.NewReader(in), Chunk: 5})
+		if (perr == nil) != (lerr == nil) {
+			return fmt.Errorf("ReadSignatureDatabase gives another verdict for the same %d-byte input read through a plain io.Reader: %v (bytes.Reader: %v) [%s]; input %x", len(in), perr, lerr, class, in)
+		}
+		if perr == nil && !bytes.Equal(dbp.Bytes(), db.Bytes()) {
+			return fmt.Errorf("ReadSignatureDatabase decodes another database for the same input read through a plain io.Reader [%s]; input %x", class, in)
+		}
+	}
 	if lerr != nil {
 		return nil // an error is always an acceptable answer for C08 (C07 covers the converse)
 	}
